@@ -59,7 +59,7 @@ Lemma sum_sizes q r : forall m,
   list_sum (map (fun idx => q + (if idx <? r then 1 else 0)) (seq 0 m)) = m * q + Nat.min m r.
 Proof.
   induction m as [|m IH]; [reflexivity|].
-  rewrite seq_S, map_app, list_sum_app, IH. cbn [map list_sum plus].
+  rewrite seq_S, map_app, list_sum_app, IH. cbn -[Nat.ltb Nat.mul Nat.min].
   destruct (Nat.ltb_spec0 m r); nia.
 Qed.
 
@@ -172,7 +172,7 @@ Qed.
 Theorem kl_multivariate_same_coef_lemma ms (C : list (list R)) Bs p :
   (p < length ms)%nat -> (p < length Bs)%nat ->
   nth p (kl_multi opsR ms C Bs) [] = kl_data opsR (nth p ms 0%nat) C (nth p Bs []).
-Proof. intros H1 H2. unfold kl_multi. apply (map2_nth _ 0%nat [] []); assumption. Qed.
+Proof. intros H1 H2. unfold kl_multi. apply (map2_nth (fun m b => kl_data opsR m C b) 0%nat [] []); assumption. Qed.
 
 Theorem kl_multivariate_entries ms (C : list (list R)) Bs p i j :
   (p < length ms)%nat -> (p < length Bs)%nat -> (i < length C)%nat ->
@@ -207,7 +207,7 @@ Proof.
   induction n as [|n IH]; [reflexivity|].
   rewrite seq_S at 1. rewrite rev_app_distr. cbn [rev app plus].
   cbn [seq map]. f_equal; [lia|].
-  rewrite <- seq_shift, map_map, IH. apply map_ext. intros k. lia.
+  rewrite <- (seq_shift n 1), map_map, IH. apply map_ext. intros k. lia.
 Qed.
 
 (* the model's linear family IS the code's formula (n - k + 1) / n, k = 1..n *)
